@@ -19,7 +19,8 @@ LEVEL_TEXT = ("Theorems in coq/Props/C14.v over Model/Linear.v (chain detection 
               "merge_linear_paths() (merged segments with their tags, re-attached dovetails, cascade over the members; "
               "merge_path on the reference semantics of the graph) are compared with the model inside Coq. "
               "Every segment that is not a member of the merged chain is in the graph afterwards as it was "
-              "(Proofs/MergeFrameP.v: a segment never depends on another line). "
+              "(Proofs/MergeFrameP.v: a segment never depends on another line); the dovetails of the chain's two outward ends arrive on "
+              "the L and R ends of the merged segment for every orientation (Proofs/RelinkP.v). "
               "PARTIAL: maximality of the chains, re-attachment of the outward dovetails, the other untouched lines, preserved "
               "components and idempotence are decided per generated graph by the independent oracle (spec_linear.py), not proved.")
 RULE = ("GFA1 graphs of 3-9 segments built from 1-3 chain blueprints with mixed orientations and link directions, closed into "
